@@ -250,3 +250,59 @@ def ufuncs(inp):
             if r:
                 return r
     return None
+
+
+# ------------------------------------------------------------------ the same call with an explicit output target
+OUT_FUNCS = {"add": 2, "subtract": 2, "multiply": 2, "negative": 1, "positive": 1, "absolute": 1, "floor": 1, "ceil": 1, "rint": 1, "square": 1}
+INPLACE = {"add": "__iadd__", "subtract": "__isub__"}     # (`*=` needs a left operand that already has every field of the product)
+
+
+def gen_out(tier, rng):
+    for f, arity in OUT_FUNCS.items():
+        for _ in range(count(tier, 2, 12)):
+            shape = rng.choice([(2,), (2, 2)])
+            names = sorted(rng.sample(["q0", "q1", "q2"], 2))
+            yield {"f": f, "a": {"poly": rand_poly(rng, shape=shape, names=names, maxterms=2, maxexp=2, dtype="float64")},
+                   "b": {"poly": rand_poly(rng, shape=shape, names=names, maxterms=2, maxexp=2, dtype="float64")} if arity == 2 else None,
+                   "how": rng.choice(["numpy_out", "numpy_out"] + (["inplace"] if f in INPLACE else []))}
+
+
+@check("C08", "out_argument.spellings", gen_out, functions=("numpoly.ndpoly.__array_ufunc__", "numpoly.simple_dispatch", "numpoly.multiply"),
+       note="bounded: 10 registered ufuncs called as numpy.f(..., out=x) and as numpoly.f(..., out=x) with an output array that has exactly the "
+            "fields of the result, and the in-place operators += -= : the same polynomial must come out of every spelling")
+def out_spellings(inp):
+    import numpoly
+    f = inp["f"]
+    args = [operand(inp["a"])] + ([operand(inp["b"])] if inp.get("b") else [])
+    try:
+        ref = getattr(numpoly, f)(*args)
+    except Exception:
+        return None
+    def target():
+        # an output array with the storage layout of the result (same fields, names, shape, dtype), zero filled
+        return numpoly.polynomial_from_attributes(ref.exponents, [c * 0 for c in ref.coefficients], ref.names, dtype=ref.dtype,
+                                                  retain_coefficients=True, retain_names=True)
+    x1 = target()
+    try:
+        r1 = getattr(numpoly, f)(*args, out=x1)
+    except Exception as e:
+        return None                  # (the numpoly spelling with out= failing is judged by other properties)
+    if _equal_results(ref, r1):
+        return None
+    if inp["how"] == "inplace":
+        lhs = numpoly.polynomial_from_attributes(ref.exponents, [c * 0 for c in ref.coefficients], ref.names, dtype=ref.dtype,
+                                                 retain_coefficients=True, retain_names=True)
+        lhs = numpoly.add(lhs, args[0], out=lhs)      # the left operand, stored with the result's layout
+        try:
+            r2 = getattr(lhs, INPLACE[f])(args[1])
+        except Exception as e:
+            return f"in-place operator {INPLACE[f]} raised {type(e).__name__}: {str(e)[:80]} (numpoly.{f}(..., out=) returns normally)"
+        d = _equal_results(ref, r2)
+        return f"in-place operator {INPLACE[f]} differs from numpoly.{f}: {d}" if d else None
+    x2 = target()
+    try:
+        r2 = getattr(numpy, f)(*args, out=x2)
+    except Exception as e:
+        return f"numpy.{f}(..., out=x) raised {type(e).__name__}: {str(e)[:80]} (numpoly.{f}(..., out=x) returns normally)"
+    d = _equal_results(ref, r2)
+    return f"numpy.{f}(..., out=x) differs from numpoly.{f}(..., out=x): {d}" if d else None
